@@ -36,6 +36,7 @@ fn judge(acc: &mut Acc, iface: &str, api: &'static str, input: &[u8], cfg: Strin
     acc.res.evaluations += 1;
     acc.windows += 1;
     acc.bytes += input.len() as u64;
+    acc.res.sample(|| J::obj(vec![("iface", J::s(iface)), ("api", J::s(api)), ("input", J::s(esc(&input[..input.len().min(160)]))), ("config", J::s(cfg.clone())), ("allocations_in_window", out.allocs.into()), ("events", out.log.len().into())]));
     *acc.by_api.entry(api).or_default() += 1;
     if out.crashed() {
         acc.res.skipped_crash += 1;
@@ -201,7 +202,9 @@ pub fn run(ctx: &Ctx) -> PropResult {
     res.cov("errors_reported_inside_windows", errors);
     res.cov("responses_formatted_inside_windows", responses);
     res.cov("windows_by_api", J::Obj(by_api.into_iter().map(|(k, v)| (k.to_string(), J::Int(v as i64))).collect()));
-    res.samples = vec![J::s("process::<16>(\"N? 18446744073709551615,-1;:B:C?\\nZZ\\nSYST:ERR?\\n\") in 3+0+9+... byte reads: 0 allocations")];
+    res.samples.truncate(5);
+    let described: Vec<J> = vec![J::s("process::<16>(\"N? 18446744073709551615,-1;:B:C?\\nZZ\\nSYST:ERR?\\n\") in 3+0+9+... byte reads: 0 allocations")];
+    res.samples.extend(described.into_iter().take(1));
     res.assumptions = vec!["handler bodies and the harness' recorders allocate only inside the exempt section".into()];
     if calls == 0 || errors == 0 || responses == 0 {
         res.inconclusive = Some("the windows did not see handler calls, errors and responses".into());
